@@ -65,7 +65,7 @@ CRASH = {
  'variable-then-function': ('F is 9001\nF takes X\ngive back X\n\nsay F\n', {'n1': {}}),
  'array-function-arg': ('F takes L\nRoll L into H\ngive back H\n\nsay F taking 9001\nRock Arr\nsay F taking Arr\n', {'n1': {}}),
 }
-BOUNDS = {'generated programs': 'kind x statement matrix: X of every kind {undefined name, mysterious, null, boolean, number, string, array with list and dictionary part, empty array, function} x 40 one-operand statement / expression forms + 38 two-operand forms with the other operand of kind {number, string, array, null} (1728 programs); numbers any double (an operand used as index / repeat count: <= 3, >= 6e17 or NaN -- values in between only allocate), strings any opaque string and, in a second run, a bounded string of 0..=1 (thorough 2) symbolic characters incl. multi-byte ones; poetic number literals of 1..=40 (thorough 120) words with 4 dot placements',
+BOUNDS = {'generated programs': 'kind x statement matrix: X of every kind {undefined name, mysterious, null, boolean, number, string, array with list and dictionary part, empty array, function} x 51 one-operand statement / expression forms + 38 two-operand forms with the other operand of kind {number, string, array, null} (1827 programs); numbers any double (an operand used as index / repeat count: <= 3, >= 6e17 or NaN -- values in between only allocate), strings any opaque string and, in a second run, a bounded string of 0..=1 (thorough 2) symbolic characters incl. multi-byte ones; poetic number literals of 1..=40 (thorough 120) words with 4 dot placements',
           'programs': '%d crash-oriented templates + the templates of C04 / C05 / C08 (%d), each parsed by the real parser; every placeholder is any double / any string' % (len(CRASH), len(C04.TEMPLATES) + len(C05.T) + len(C08.T)),
           'edges': 'panic, debug assertion, unreachable!, unimplemented!, MIR overflow / bounds asserts, RefCell double borrow, unwrap on None / Err, unchecked_unwrap on None / Err, unreachable_unchecked, and rendering (Display) of every runtime error produced',
           'inventory': 'every crash site of the interpreter modules in the MIR is listed; the function containing it must have been executed by some harness path, otherwise the check is inconclusive'}
